@@ -37,7 +37,22 @@ class FaultyMap(dict):
         return super().__getitem__(key)
 
 
-DATA = {1: {"a": "A1", "b": "1000000", "l": [1, 2, 3]}, 2: {"a": "A2", "b": "2000000", "l": [4, 5, 6, 7]}}
+DATA = {1: {"a": "A1", "b": "1000000", "l": [1, 2, 3], "n": 2}, 2: {"a": "A2", "b": "2000000", "l": [4, 5, 6, 7], "n": 5}}
+
+
+class AsyncFaultyMap(FaultyMap):
+    """The same, suspending once per access in async renders."""
+
+    async def __getitem_async__(self, key):
+        from .sched import pause
+        await pause()
+        return self[key]
+
+
+class LoaderFault:
+    """Shared by the loaders of one call: the k-th loader call raises."""
+    k = 0
+    n = 0
 
 
 class Clock:
@@ -74,8 +89,25 @@ def install_clock():
 
 
 def make_env(which: int, partials: dict):
-    from liquid2 import CachingDictLoader, Environment
-    env = Environment(loader=CachingDictLoader(dict(partials)), globals={"envname": f"env{which}"})
+    """Environment 1 reads a plain DictLoader over `partials` (edits of the dict are loader
+    contents, every load is a loader call); Environment 2 caches."""
+    from liquid2 import CachingDictLoader, DictLoader, Environment
+
+    class CountingLoader(DictLoader):
+        def get_source(self, env, template_name, **kw):
+            LoaderFault.n += 1
+            if LoaderFault.k and LoaderFault.n >= LoaderFault.k:
+                raise Boom(f"loader call {LoaderFault.n}")
+            return super().get_source(env, template_name, **kw)
+
+        async def get_source_async(self, env, template_name, **kw):
+            return self.get_source(env, template_name, **kw)
+
+    if which == 1:
+        loader = CountingLoader(partials)        # the dict itself: later edits are seen
+    else:
+        loader = CachingDictLoader(dict(partials))
+    env = Environment(loader=loader, globals={"envname": f"env{which}"})
     if which == 2:
         # a differently configured environment: its own filter and a changed built-in
         env.filters["upcase"] = lambda s: f"<{s}>"
@@ -87,7 +119,10 @@ def call(env, cache, op, pool, partials):
     from liquid2.exceptions import LiquidError
     t_id, kind = op["t"], op["op"]
     tpl = pool[t_id - 1]
-    data = {"x": FaultyMap(DATA[op["d"]], op["fault"])}
+    loader_fault = op.get("fk") == "loader"
+    data = {"x": FaultyMap(DATA[op["d"]], 0 if loader_fault else op["fault"]), "v": f"V{op['d']}"}
+    LoaderFault.n = 0
+    LoaderFault.k = op["fault"] if loader_fault else 0
     try:
         if kind in ("render", "render_async", "analyze"):
             key = (id(env), t_id)
@@ -110,21 +145,67 @@ def call(env, cache, op, pool, partials):
         return {"ok": False, "err": type(e).__name__}
     except Exception as e:  # noqa: BLE001
         return {"ok": False, "err": "non-liquid:" + type(e).__name__}
+    finally:
+        LoaderFault.k = 0
+
+
+def pair(env, cache, op, pool, solo: bool):
+    """Two render_async calls on the Environment's long-lived Template objects (the same object
+    when both are the same template), interleaved as the schedule says - or each alone."""
+    from .sched import run_schedule, run_solo
+    LoaderFault.k = 0
+    facs = {}
+    for slot, (t_id, d) in enumerate(((op["t"], op["d"]), (op["t2"], op["d2"])), start=1):
+        tpl = pool[t_id - 1]
+        key = (id(env), t_id)
+        if key not in cache:
+            cache[key] = env.from_string(tpl["src"], name=tpl["name"])
+        t = cache[key]
+
+        def fac(t=t, d=d):
+            async def co():
+                from liquid2.exceptions import LiquidError
+                try:
+                    return await t.render_async(x=AsyncFaultyMap(DATA[d], 0), v=f"V{d}")
+                except LiquidError as e:
+                    return f"error:{type(e).__name__}"
+            return co()
+        facs[slot] = fac
+    if solo:
+        return [run_solo(facs[1])[0], run_solo(facs[2])[0]]
+    res = run_schedule(facs, list(op["sched"]))
+    return [res.get(1), res.get(2)]
 
 
 def replay(ops, pool, partials):
+    """partials: name -> [version 1, version 2]."""
     install_clock()
-    all_tpls = dict(partials)
-    all_tpls.update({t["name"]: t["src"] for t in pool})
+
+    def contents(version):
+        d = {n: v[version - 1] for n, v in partials.items()}
+        d.update({t["name"]: t["src"] for t in pool})
+        return d
+
     Clock.now = 1_000_000
-    envs = {1: make_env(1, all_tpls), 2: make_env(2, all_tpls)}
+    version = {1: 1, 2: 1}
+    stores = {1: contents(1), 2: contents(1)}
+    envs = {1: make_env(1, stores[1]), 2: make_env(2, stores[2])}
     cache: dict = {}
     for i, op in enumerate(ops):
         if op["op"] == "tick":
             Clock.now += 1000
             continue
-        got = call(envs[op["env"]], cache, op, pool, partials)
-        fresh = call(make_env(op["env"], all_tpls), {}, op, pool, partials)
+        if op["op"] == "edit":
+            version[1] = 3 - version[1]
+            stores[1].update(contents(version[1]))
+            continue
+        e = op["env"]
+        if op["op"] == "pair":
+            got = pair(envs[e], cache, op, pool, solo=False)
+            fresh = pair(make_env(e, contents(version[e])), {}, op, pool, solo=True)
+        else:
+            got = call(envs[e], cache, op, pool, partials)
+            fresh = call(make_env(e, contents(version[e])), {}, op, pool, partials)
         if got != fresh:
             return {"at": i, "op": op, "history": got, "fresh": fresh}
     return None
@@ -149,8 +230,15 @@ def check(tier: str) -> int:
                         "oracle: the same call on freshly built Environment/loader/Template objects at the same clock value",
                         "TLC, Json/IOUtils modules, CPython"]
     thorough = tier == "thorough"
-    runs = [("exhaustive", {"MaxOps": "2", "MaxFault": "2" if thorough else "1"}, None),
-            ("random", {"MaxOps": "8" if thorough else "6", "MaxFault": "3"}, f"num={6000 if thorough else 1500}")]
+    seq = '{"call", "tick", "edit"}'
+    ALL = {"TSet": "{}", "DSet": "{}"}
+    runs = [("exhaustive", dict(ALL, MaxOps="2", MaxFault="2" if thorough else "1", Kinds=seq, MaxSched="0"), None),
+            # call - tick - call on the templates that show the clock; call - edit - call on those that load partials
+            ("clock", {"MaxOps": "3", "MaxFault": "0", "Kinds": '{"call", "tick"}', "MaxSched": "0", "TSet": "{6, 7}", "DSet": "{}" if thorough else "{1}"}, None),
+            ("loader", {"MaxOps": "3", "MaxFault": "1" if thorough else "0", "Kinds": '{"call", "edit"}', "MaxSched": "0", "TSet": "{4, 5, 9}", "DSet": "{1}"}, None),
+            ("pairs", dict(ALL, MaxOps="1", MaxFault="0", Kinds='{"pair"}', MaxSched="6" if thorough else "5"), None),
+            ("random", dict(ALL, MaxOps="8" if thorough else "6", MaxFault="3", Kinds='{"call", "tick", "edit", "pair"}', MaxSched="4"),
+             f"num={6000 if thorough else 1500}")]
     for label, c, sim in runs:
         consts = dict(c, Dev="{}", Focus='"history"')
         r = tlc.run("LiquidHistory", tlc.cfg_text(constants=consts, invariants=["HistoryIndependent", "Export", "ExportPool"]),
@@ -169,7 +257,7 @@ def check(tier: str) -> int:
             hists = list({json.dumps(rec["ops"]): rec["ops"] for rec in r.out_lines()}.values())
         finally:
             r.cleanup()
-        jobs = [(c2, meta["pool"], {p["name"]: p["src"] for p in meta["partials"]}) for c2 in chunks(hists, workers() * 3)]
+        jobs = [(c2, meta["pool"], {p["name"]: [p["src"], p["src2"]] for p in meta["partials"]}) for c2 in chunks(hists, workers() * 3)]
         with ProcessPoolExecutor(workers()) as ex:
             for n, fails in ex.map(_chunk, jobs):
                 chk.validated(n)
@@ -178,17 +266,20 @@ def check(tier: str) -> int:
                 for ops, f in fails:
                     tname = meta["pool"][f["op"]["t"] - 1]["name"] if f["op"].get("t") else "?"
                     prior = sorted({o["op"] for o in ops[:max(f["at"], 0)]})
-                    chk.violation(f"history-dependent:{f['op']['op']}:{tname}:after:{','.join(prior)}", {"history": ops, "failure": f})
+                    what = "schedule-dependent" if f["op"]["op"] == "pair" and not prior else "history-dependent"
+                    chk.violation(f"{what}:{f['op']['op']}:{tname}:after:{','.join(prior)}", {"history": ops, "failure": f})
         if hists:
             chk.cov["samples"].append({"history": hists[0]})
-    # non-vacuity: the memo deviation is refuted by TLC
-    r = tlc.run("LiquidHistory", tlc.cfg_text(constants={"MaxOps": "3", "MaxFault": "0", "Dev": '{"DateMemo"}', "Focus": '"h"'},
-                                              invariants=["HistoryIndependent"]), tag="history-dev", timeout=1200)
-    try:
-        if not r.invariant_violated:
-            chk.machinery_error = "vacuity: HistoryIndependent holds even with the date memo"
-    finally:
-        r.cleanup()
+    # non-vacuity: each named deviation is refuted by TLC
+    for dev, kinds, sched in (("DateMemo", '{"call", "tick"}', "0"), ("PartialMemo", '{"call", "edit"}', "0"), ("SharedNode", '{"pair"}', "3")):
+        r = tlc.run("LiquidHistory", tlc.cfg_text(constants={"MaxOps": "3", "MaxFault": "0", "Dev": '{"%s"}' % dev, "Focus": '"h"',
+                                                             "Kinds": kinds, "MaxSched": sched, "TSet": "{}", "DSet": "{}"},
+                                                  invariants=["HistoryIndependent"]), tag="history-dev", timeout=1200)
+        try:
+            if not r.invariant_violated:
+                chk.machinery_error = f"vacuity: HistoryIndependent holds even with the deviation {dev}"
+        finally:
+            r.cleanup()
     return chk.finish()
 
 
@@ -197,10 +288,11 @@ def replay_file(path: str) -> int:
     from . import tlc as _t
     d = json.load(open(path))
     rec = d["record"]
-    r = _t.run("LiquidHistory", _t.cfg_text(constants={"MaxOps": "0", "MaxFault": "0", "Dev": "{}", "Focus": '"h"'}, invariants=["ExportPool"]), tag="pool")
+    r = _t.run("LiquidHistory", _t.cfg_text(constants={"MaxOps": "0", "MaxFault": "0", "Dev": "{}", "Focus": '"h"', "Kinds": "{}", "MaxSched": "0", "TSet": "{}", "DSet": "{}"},
+                                            invariants=["ExportPool"]), tag="pool")
     meta = json.loads((r.workdir / "pool.json").read_text().splitlines()[0])
     r.cleanup()
-    f = replay(rec["history"], meta["pool"], {p["name"]: p["src"] for p in meta["partials"]})
+    f = replay(rec["history"], meta["pool"], {p["name"]: [p["src"], p["src2"]] for p in meta["partials"]})
     for o in rec["history"]:
         print(o)
     print("now:", f)
